@@ -89,6 +89,8 @@ struct World {
     m: UdpManager,
     now: Instant,
     live: HashMap<FlowId, RefFlow>,
+    /// reference flow table: affinity key (port 0 = keyed by IP only) -> live flow
+    table: HashMap<SocketAddr, FlowId>,
     created: u64,
     closed: u64,
     sent: u32,
@@ -100,6 +102,7 @@ fn new_world(base: Instant) -> World {
         m: UdpManager::new(cluster(0), 2, 1500, 7),
         now: base,
         live: HashMap::new(),
+        table: HashMap::new(),
         created: 0,
         closed: 0,
         sent: 0,
@@ -120,6 +123,20 @@ fn step(w: &mut World, op: Op) -> Bad {
     let mut input_src: Option<SocketAddr> = None;
     let mut input_bd_flow: Option<FlowId> = None;
     let max_before = w.m.max_flows();
+    // the affinity key of a client datagram is computed with the mode in force
+    // when it arrives; a flow stays registered under the key it was admitted with
+    let key_of = |src: SocketAddr, with_port: bool| {
+        let mut k = src;
+        if !with_port {
+            k.set_port(0);
+        }
+        k
+    };
+    let input_key = match op {
+        Op::Cd(s) => Some(key_of(SRCS[s as usize].parse().unwrap(), w.m.affinity_with_port())),
+        _ => None,
+    };
+    let owner_before = input_key.and_then(|k| w.table.get(&k).copied()).filter(|f| w.live.contains_key(f));
     match op {
         Op::Cd(s) => {
             w.sent += 1;
@@ -173,6 +190,9 @@ fn step(w: &mut World, op: Op) -> Bad {
                 if w.m.is_draining() {
                     flag("admitted-while-draining", "a flow was admitted after Drain".into());
                 }
+                if let Some(f) = owner_before {
+                    flag("second-flow-for-client", format!("a new flow was created for affinity key {:?} while flow {f} registered under that key is alive", input_key));
+                }
             }
             Output::SelectBackend { flow, .. } => {
                 pending_select = Some(flow);
@@ -180,6 +200,9 @@ fn step(w: &mut World, op: Op) -> Bad {
                     flag("flow-id-reused-while-live", format!("flow id {flow} handed out twice"));
                 }
                 let cfg = w.m.flow(flow).map(|f| f.config.clone());
+                if let Some(k) = input_key {
+                    w.table.insert(k, flow);
+                }
                 w.live.insert(
                     flow,
                     RefFlow {
@@ -257,6 +280,7 @@ fn step(w: &mut World, op: Op) -> Bad {
             Output::CloseFlow(f) => {
                 w.closed += 1;
                 w.stats[2] += 1;
+                w.table.retain(|_, v| *v != f);
                 if w.live.remove(&f).is_none() {
                     flag("double-close", format!("flow {f} closed while not live (closed twice or never created)"));
                 }
